@@ -2,7 +2,7 @@
     (record [sp_ops] of SplineModel.v; executed at [Qc], see GalerkinQc.v).
 
     Inputs that the code obtains from numpy (the Gauss-Legendre points mapped to the cells, the
-    weights, [multFactor], the values of the coefficient functions A, B, C, D, E at the points)
+    weights, the factor that multiplies them in every cell - today one [multFactor] for all cells -, the values of the coefficient functions A, B, C, D, E at the points)
     are inputs of the model.  The B-spline values at the points are those of SplineModel.v
     ([sp_nu_find_span], [sp_nu_basis_funs], [sp_nu_basis_funs_1st_der]): the code evaluates
     [self._rspline[a].eval(pts, der)], a spline with unit coefficient vector, on a non-uniform
@@ -200,17 +200,18 @@ Record gk_asm : Type := GkAsm {
   gka_p : nat; gka_nb : nat;
   gka_mass : list (list F); gka_k2 : list (list F); gka_phipsi : list (list F);
   gka_dd : list (list F); gka_d1 : list (list F);
-  gka_tab : list (list gk_pt)
+  gka_tab : list (list gk_pt);
+  gka_E : list (list F)          (* self._rhoFactor at the points, used by _solveModeFunc *)
 }.
 
-Definition gk_assemble (knots : list F) (p nc nq : nat) (pts : list (list F)) (wts : list F) (mf : F)
+Definition gk_assemble (knots : list F) (p nc nq : nat) (pts : list (list F)) (wts : list F) (mf : list F)
   (At Bt Ct Dt Et : list (list F)) : sp_res gk_asm :=
   sp_bind (gk_table knots p pts) (fun T =>
   if gk_spans_ok p T nc nq then
     let phi := gk_phi p T in
-    let W := fun (c q : nat) => nth q wts 0 * mf in
+    let W := fun (c q : nat) => nth q wts 0 * nth c mf 0 in
     let dg := fun k => gk_diags p nc nq phi W (gk_at pts) (gk_at At) (gk_at Bt) (gk_at Ct) (gk_at Dt) (gk_at Et) k (nc + p) in
-    SpOk (GkAsm p (nc + p) (dg GkMass) (dg GkK2) (dg GkPhiPsi) (dg GkDD) (dg GkD1) T)
+    SpOk (GkAsm p (nc + p) (dg GkMass) (dg GkK2) (dg GkPhiPsi) (dg GkDD) (dg GkD1) T Et)
   else SpArgErr).
 
 Definition gk_msq (m : Z) : F := sp_ofZ F K (m * m).
@@ -227,11 +228,11 @@ Definition gk_mode_matrix (S : gk_asm) (m : Z) (lo hi : nat) : list (list F) :=
 Definition gk_rhs_discrete (S : gk_asm) (lo hi : nat) (rho : list F) : list F :=
   map (fun a => gsum (gka_nb S) (fun b => gk_entry (gka_p S) (gka_mass S) a b * nth b rho 0)) (seq lo (hi - lo)).
 
-(** rhoVec[a] = sum over ALL points of w*multFactor*B_a(x)*x*rho(x)   (no rhoFactor: as the code) *)
-Definition gk_rhs_func (S : gk_asm) (nc nq : nat) (pts : list (list F)) (wts : list F) (mf : F)
+(** rhoVec[a] = sum over ALL points of w*multFactor*B_a(x)*x*E(x)*rho(x)   (E = self._rhoFactor) *)
+Definition gk_rhs_func (S : gk_asm) (nc nq : nat) (pts : list (list F)) (wts : list F) (mf : list F)
   (rhot : list (list F)) (lo hi : nat) : list F :=
   map (fun a => gsum nc (fun c => gsum nq (fun q =>
-        nth q wts 0 * mf * gk_phi (gka_p S) (gka_tab S) 0 a c q * gk_at pts c q * gk_at rhot c q)))
+        nth q wts 0 * nth c mf 0 * gk_phi (gka_p S) (gka_tab S) 0 a c q * gk_at pts c q * gk_at (gka_E S) c q * gk_at rhot c q)))
       (seq lo (hi - lo)).
 
 (** coeffs[:] = solution with self._coeffs[0] = self._coeffs[-1] = 0 set before: [buf] is the content
@@ -253,7 +254,7 @@ Definition gk_solve_mode (S : gk_asm) (lN uN : list Z) (m : Z) (buf rho : list F
 
 (** _solveModeFunc *)
 Definition gk_solve_mode_func (S : gk_asm) (lN uN : list Z) (m : Z) (buf : list F)
-  (nc nq : nat) (pts : list (list F)) (wts : list F) (mf : F) (rhot : list (list F)) : sp_res (list F) :=
+  (nc nq : nat) (pts : list (list F)) (wts : list F) (mf : list F) (rhot : list (list F)) : sp_res (list F) :=
   gk_solve_rhs S lN uN m buf
     (gk_rhs_func S nc nq pts wts mf rhot (gk_coeff_lo lN m) (gk_coeff_hi (gka_nb S) uN m)).
 
@@ -262,14 +263,14 @@ Definition gk_solve_mode_func (S : gk_asm) (lN uN : list Z) (m : Z) (buf : list 
     (mode value, table of rho(x) at the quadrature points). *)
 Definition gk_work : Type := (Z * (list F + list (list F)))%type.
 
-Definition gk_solve_item (S : gk_asm) (lN uN : list Z) (nc nq : nat) (pts : list (list F)) (wts : list F) (mf : F)
+Definition gk_solve_item (S : gk_asm) (lN uN : list Z) (nc nq : nat) (pts : list (list F)) (wts : list F) (mf : list F)
   (buf : list F) (w : gk_work) : sp_res (list F) :=
   match snd w with
   | inl rho => gk_solve_mode S lN uN (fst w) buf rho
   | inr rhot => gk_solve_mode_func S lN uN (fst w) buf nc nq pts wts mf rhot
   end.
 
-Fixpoint gk_solve_all (S : gk_asm) (lN uN : list Z) (nc nq : nat) (pts : list (list F)) (wts : list F) (mf : F)
+Fixpoint gk_solve_all (S : gk_asm) (lN uN : list Z) (nc nq : nat) (pts : list (list F)) (wts : list F) (mf : list F)
   (buf : list F) (work : list gk_work) : sp_res (list (list F)) :=
   match work with
   | [] => SpOk []
